@@ -149,8 +149,16 @@ func runSerialCollect(sc int, c *serialCase, emit func(serialEv)) {
 		req := c.Flavour != "ans" && !(c.Flavour == "mixed" && i%2 == 0)
 		return appMsg(272, 4, req, uint32(k*100+i))
 	}
-	switch c.Pattern {
-	case "burst":
+	regPending := c.Flavour == "regpending" && c.HoldC > 0
+	switch {
+	case regPending:
+		// only the connection whose handler will be held; the others follow once a registration is pending
+		var b []byte
+		for i := 1; i <= c.Msgs; i++ {
+			b = append(b, msg(c.HoldC, i)...)
+		}
+		conns[c.HoldC].Feed(b)
+	case c.Pattern == "burst":
 		for k := 1; k <= c.Conns; k++ {
 			var b []byte
 			for i := 1; i <= c.Msgs; i++ {
@@ -158,7 +166,7 @@ func runSerialCollect(sc int, c *serialCase, emit func(serialEv)) {
 			}
 			conns[k].Feed(b)
 		}
-	case "bytes":
+	case c.Pattern == "bytes":
 		for i := 1; i <= c.Msgs; i++ {
 			for off := 0; off < 20; off++ {
 				for k := 1; k <= c.Conns; k++ {
@@ -186,9 +194,23 @@ func runSerialCollect(sc int, c *serialCase, emit func(serialEv)) {
 	if c.HoldC > 0 {
 		select {
 		case <-entered:
+			if regPending {
+				go mux.HandleFunc("ULR", func(diam.Conn, *diam.Message) {}) // waits for the held handler
+				time.Sleep(5 * time.Millisecond)
+				for k := 1; k <= c.Conns; k++ {
+					if k != c.HoldC {
+						var b []byte
+						for i := 1; i <= c.Msgs; i++ {
+							b = append(b, msg(k, i)...)
+						}
+						conns[k].Feed(b)
+					}
+				}
+			}
 			// positive deadline: every other connection makes progress while this handler is held
+			// (not with a registration pending: the mux dispatches under its read lock)
 			deadline := time.Now().Add(2 * time.Second)
-			for {
+			for !regPending {
 				ok, k := allOthersDone()
 				if ok {
 					break
